@@ -38,6 +38,12 @@ def main(tier):
         res0 = vlib.tlc(wd, "MCConc", cfg="MCConcCap0.cfg", timeout=900)
         if not res0.violation:
             raise vlib.Inconclusive("selftest: the model with an unbuffered cancel channel should deadlock but does not")
+        res2 = vlib.tlc(wd, "MCConc", cfg="MCConcBlocking.cfg", timeout=900)
+        if not res2.violation:
+            raise vlib.Inconclusive("selftest: the model with the blocking cancel send (the code as found) should get stuck but does not")
+        res1 = vlib.tlc(wd, "MCConc", cfg="MCConcHeldRead.cfg", timeout=900)
+        if not res1.violation:
+            raise vlib.Inconclusive("selftest: the model in which the caller-side refresh keeps the session's read lock should get stuck but does not")
         trace = os.path.join(wd, "trace.ndjson")
         rounds = 60 if not run.thorough else 1500
         lines, races_all = [], []
